@@ -163,6 +163,23 @@ def sortedSpan (a : SeqArg) : Except Err (Rat × Rat) :=
   | [x, y] => pure (sort2 x y)
   | _ => throw .value
 
+/-- `assert isfixedlength(bbox, 4); bbox = BBOX(*bbox)`. -/
+def boxOf (a : SeqArg) : Except Err Box :=
+  match a.vals with
+  | [x0, y0, x1, y1] => pure ⟨x0, y0, x1, y1⟩
+  | _ => throw .value
+
+/-- `a.mask & b.mask`, `a.mask != b.mask` on plain boolean arrays. -/
+def band (a b : List Bool) : List Bool := List.zipWith (· && ·) a b
+def bxor (a b : List Bool) : List Bool := List.zipWith (fun x y => x != y) a b
+
+/-- The array `utils.great_circle_distance(lat, lon)` returns, given the geodesic hop distances
+    (an input of the model, DESIGN §2.2): 0 at the first position, the distance from the previous
+    position elsewhere — an UNMASKED NaN when one of the hop's four coordinates is missing
+    (`np.vectorize` runs the solver on the raw data and the result is a plain array). -/
+def hopCell (h : V) : Cell := match h with | some d => ⟨.num d, false⟩ | none => ⟨.nan, false⟩
+def greatCircle (hops : List V) (n : Nat) : MArr := (List.range n).map fun i => hopCell (hopAt hops i)
+
 /-! ## array-level transcriptions -/
 
 /-- `gross_range_test` after the argument checks (spans sorted; `u ⊆ f` verified). -/
